@@ -17,6 +17,9 @@ ALPHA_FULL = [("Define", "x", 1), ("Set", "x", 2), ("Get", "x", 0), ("Delete", "
 ALPHA_CORE = ALPHA_FULL[:6]
 ALPHA_W = [("Define", "x", 1), ("Set", "x", 2), ("Delete", "x", 0), ("DeleteGlobal", "x", 0), ("Copy", "", 0), ("Define", "y", 3)]
 TABS = [{"k": [], "v": []}, {"k": ["x"], "v": [5]}]
+# type definitions and lookups on the same scope (names beginning with "t" live in its type table; a scope without types has no type table yet)
+ALPHA_T = [("Define", "tx", 1), ("Define", "tx", 2), ("Define", "ty", 3), ("Get", "tx", 0), ("Copy", "", 0), ("Define", "x", 1)]
+TABS_T = [{"k": [], "v": []}, {"k": ["tx"], "v": [4]}]
 PTAB = {"k": ["p"], "v": [9]}
 
 
@@ -260,10 +263,14 @@ def run(ctx):
     shapes(ctx, binp)
     # (b) exhaustive schedules on the real code
     if ctx.quick():
-        cfgs = [("dfs2x2", dict(mode="all", procs=2, nops=2, alphabet=ops(ALPHA_FULL), init_tabs=TABS, parent_tab=PTAB, seed=ctx.seed))]
+        cfgs = [("dfs2x2", dict(mode="all", procs=2, nops=2, alphabet=ops(ALPHA_FULL), init_tabs=TABS, parent_tab=PTAB, seed=ctx.seed)),
+                ("dfs2x2types", dict(mode="all", procs=2, nops=2, alphabet=ops(ALPHA_T), init_tabs=TABS_T, parent_tab=PTAB, seed=ctx.seed)),
+                ("dfs3x1types", dict(mode="all", procs=3, nops=1, alphabet=ops(ALPHA_T), init_tabs=TABS_T, parent_tab=PTAB, seed=ctx.seed))]
     else:
         cfgs = [("dfs2x2", dict(mode="all", procs=2, nops=2, alphabet=ops(ALPHA_FULL), init_tabs=TABS, parent_tab=PTAB, seed=ctx.seed)),
                 ("dfs3x1", dict(mode="all", procs=3, nops=1, alphabet=ops(ALPHA_FULL), init_tabs=TABS, parent_tab=PTAB, seed=ctx.seed)),
+                ("dfs2x2types", dict(mode="all", procs=2, nops=2, alphabet=ops(ALPHA_T), init_tabs=TABS_T, parent_tab=PTAB, seed=ctx.seed)),
+                ("dfs3x1types", dict(mode="all", procs=3, nops=1, alphabet=ops(ALPHA_T), init_tabs=TABS_T, parent_tab=PTAB, seed=ctx.seed)),
                 ("dfs2x3", dict(mode="sample", sample=1500, procs=2, nops=3, alphabet=ops(ALPHA_CORE), init_tabs=TABS, parent_tab=PTAB, seed=ctx.seed)),
                 ("dfs3x2", dict(mode="sample", sample=400, procs=3, nops=2, alphabet=ops(ALPHA_W), init_tabs=TABS, parent_tab=PTAB, seed=ctx.seed, max_sched=20000))]
     first = None
